@@ -211,6 +211,18 @@ impl CodeFormatter {
                     _ => (false, true),
                 };
 
+                // Statements that share a line in the source still get a line of their own, exactly as if
+                // the source had a line break there (behind a label that fits in the margin it is dropped again)
+                let starts_on_new_line = token
+                    .trivia()
+                    .map_or(false, |t| t.iter().any(|t| matches!(t, Trivia::NewLine)));
+                if !starts_on_new_line
+                    && !matches!(token, Token::Eof(_))
+                    && !matches!(prev_token, Token::Error(_))
+                {
+                    self.push("\n");
+                }
+
                 let token_type = std::mem::discriminant(token);
                 let prev_token_type = std::mem::discriminant(prev_token);
 
